@@ -108,7 +108,7 @@ func c17Install(f *c17FS) {
 func Verif_C17_include_merge() {
 	f := &c17FS{files: map[string]*c17File{}, byFile: map[*os.File]string{}}
 	c17Install(f)
-	variant := vs.Choice("graph", 5)
+	variant := vs.Choice("graph", 6)
 	f.files["/etc/dae/config.dae"] = &c17File{includes: []string{"a.dae", "conf.d/*.dae"}, blocks: [][]string{{"e1", "e2"}, {"e3"}}}
 	f.files["/etc/dae/a.dae"] = &c17File{includes: []string{"b.dae"}, blocks: [][]string{{"a1"}}}
 	f.files["/etc/dae/b.dae"] = &c17File{blocks: [][]string{{"b1"}, {"b2"}}}
@@ -130,6 +130,10 @@ func Verif_C17_include_merge() {
 		wantErr = true
 	case 4: // a file that is not a .dae file is skipped by the expansion
 		f.files["/etc/dae/a.dae"].includes = []string{"notes.txt", "b.dae"}
+	case 5: // listed order is not alphabetical order
+		f.files["/etc/dae/z.dae"] = &c17File{blocks: [][]string{{"z1"}}}
+		f.files["/etc/dae/config.dae"].includes = []string{"z.dae", "conf.d/*.dae", "a.dae"}
+		want = []string{"e1", "e2", "e3", "z1", "c10", "c20", "a1", "b1", "b2"}
 	}
 	secs, _, err := NewMerger("/etc/dae/config.dae").Merge()
 	for _, o := range f.opened {
